@@ -55,7 +55,7 @@ func LoadDatabase(filename string) (*Database, error) {
 
 	db := &Database{Commands: commands}
 	// Build universal index for scalable search
-	db.BuildUniversalIndex()
+	db.buildInvertedIndex()
 	// Build TF-IDF searcher and command index for hybrid NLP reranking
 	db.buildTFIDFSearcher()
 	return db, nil
@@ -117,7 +117,7 @@ func LoadDatabaseWithPersonal(mainDBPath, personalDBPath string) (*Database, err
 
 	db := &Database{Commands: allCommands}
 	// Build universal index for scalable search
-	db.BuildUniversalIndex()
+	db.buildInvertedIndex()
 	// Build TF-IDF searcher and command index for hybrid NLP reranking
 	db.buildTFIDFSearcher()
 	return db, nil
